@@ -667,10 +667,15 @@ fn run_phases(s: &mut Sim, ks: &[u32]) -> Result<(), Fail> {
             if s.profile == Profile::C18 && ks[b] <= 64 && s.r.chance(1, 40) {
                 let big = *s.r.pick(&[1000u32, 4095, 4096, 4097, 5000, 8192]);
                 let room = (1u32 << 24) - ks[b];
-                let start = match s.r.below(4) {
+                let start = match s.r.below(6) {
                     0 => 0,
                     1 => 1 + s.r.below(2000) as u32,
                     2 => s.r.below((room - big) as u64) as u32,
+                    3 | 4 => {
+                        // straddling a multiple of 2^16 of the encoding symbol id
+                        let m = 1 + s.r.below(254) as u32;
+                        (m * 65536).saturating_sub(ks[b]).saturating_sub(s.r.below(big as u64) as u32).min(room - big)
+                    }
                     _ => room - big,
                 };
                 s.emit(Event::Window { replica: rep, sbn: b as u8, s: start, n: big })?;
